@@ -24,7 +24,8 @@ CONV = {0: "numpy_array_to_live_points", 1: "numpy_array_to_live_points(1-d)", 2
         15: "dict_roundtrip", 16: "array_roundtrip", 17: "frame_roundtrip", 18: "unstructured_view",
         19: "Model.unstructured_view", 20: "unstructured_view(other names)", 21: "view_layout",
         22: "live_points_to_array(names in any order)", 23: "live_points_to_array(names in any order, copy)",
-        24: "live_points_to_dict(names in any order)", 25: "empty_structured_array(dtype in any order)"}
+        24: "live_points_to_dict(names in any order)", 25: "empty_structured_array(dtype in any order)",
+        26: "live_points_to_array(default names)", 27: "unstructured_view(dtype=)"}
 
 NAME_POOL = ["x", "y", "z", "x_0", "x_1", "mass_1", "mass_2", "theta_jn", "_p", "a1", "X", "Y", "lambda_", "logl",
              "logp", "It", "iT", "logLL", "ra", "dec", "psi", "phase", "chirp_mass", "mass_ratio", "dL", "t_c",
@@ -146,7 +147,10 @@ def gen_cases(chk):
                 h = gen_hist(rng, maxops=4) if rng.random() < 0.7 else []
                 data = [[gen_value_bits(rng) for _ in names] for _ in range(n)]
                 c = {"kind": "conv", "valid": True, "hist": h, "names": names, "nsp": nsp, "data": data,
-                     "model": True, "params_as": rng.choice(["list", "tuple", "array"])}
+                     "model": True, "params_as": rng.choice(["list", "tuple", "array"]),
+                     # optional arguments left at their defaults (names=None, copy, non_sampling_parameters,
+                     # array_dtype, dtype) or given explicitly with the default's value
+                     "defaults": rng.random() < 0.5}
                 # generic view on other name lists: prefixes (fine), permuted prefixes and gaps (numpy rejects
                 # or returns memory order) - correspondence only, the property is about the model's names
                 r = rng.random()
@@ -267,7 +271,7 @@ def gen_cases(chk):
             q = rng.choice(pool)
             ops = [{"op": "add", "ps": [q], "dv": [gen_default(rng)], "as_tuple": False}, {"op": "reset"},
                    {"op": "add", "ps": [q], "dv": [gen_default(rng)], "as_tuple": False}] + ops[:2]
-        staged.append({"kind": "staged", "valid": True, "names": names, "nsp": rng.random() < 0.85, "ops": ops,
+        staged.append({"kind": "staged", "valid": True, "defaults": rng.random() < 0.5, "names": names, "nsp": rng.random() < 0.85, "ops": ops,
                        "data": [[gen_value_bits(rng) for _ in names]]})
     # a NON-DEFAULT configuration is set first (what a user of nessai.config may do), then a history
     f4vals = [0.5, -2.0, 1.25, float("nan"), float("inf"), -0.0, 3.0]
@@ -340,7 +344,16 @@ def direct_conv(c, r):
     need_arr(2, fresh)
     need_arr(3, fresh)
     need_arr(4, full)
-    for cid in (10, 11, 18, 19):
+    o = obs.get("26")
+    if o is not None:     # default names=None: ALL fields in storage order, `it` converted to float
+        want = [[v if v[0] == "f" else ["f", fbits(float(v[1]))] for v in row] for row in full]
+        if o["t"] != "mat":
+            bad.append(("live_points_to_array(default names):raised-or-type", f"live_points_to_array(x): {o}"))
+        elif o["m"] != want or o.get("shape") != [n, len(names)]:
+            bad.append(("live_points_to_array(default names):values-or-shape",
+                        f"live_points_to_array(x) with names=None: {o['m']} shape {o.get('shape')} expected all fields "
+                        f"{names} in storage order: {want} shape {[n, len(names)]}"))
+    for cid in (10, 11, 18, 19, 27):
         o = obs.get(str(cid))
         if o is None:
             continue
@@ -649,6 +662,7 @@ def run(chk):
         chk.count(f"conv:n={len(c['data'])}")
         chk.count(f"conv:d={'1' if len(c['names']) == 1 else '2-6' if len(c['names']) <= 6 else '7-20'}")
         chk.count("conv:nsp" if c["nsp"] else "conv:params-only")
+        chk.count("conv:optional-arguments-" + ("at-defaults" if c.get("defaults") else "explicit"))
         chk.count("conv:valid" if c["valid"] else "conv:malformed:" + c["why"])
         ex = ref_extras(c["hist"])
         chk.count(f"conv:extras={min(len(ex), 3)}{'+' if len(ex) >= 3 else ''}")
